@@ -21,9 +21,9 @@ Theorem C20_bijection : forall k vs, NoDup vs ->
      exists i, i < length vs /\ dom_numberize d v = Ok (vnat i) /\ dom_denumberize d (vnat i) = Ok v) /\
   (forall i, i < length vs ->
      exists v, In v vs /\ dom_denumberize d (vnat i) = Ok v /\ dom_numberize d v = Ok (vnat i)) /\
-  (forall v, dom_contains d v = Ok true <->
-             exists i, i < length vs /\ dom_denumberize d (vnat i) = Ok v) /\
-  (forall v, (dom_contains d v = Ok true <-> In v vs) /\ (dom_contains d v = Ok false <-> ~ In v vs)) /\
+  (forall v b, dom_contains d v b = Ok true <->
+               exists i, i < length vs /\ dom_denumberize d (vnat i) = Ok v) /\
+  (forall v b, (dom_contains d v b = Ok true <-> In v vs) /\ (dom_contains d v b = Ok false <-> ~ In v vs)) /\
   (forall v, ~ In v vs -> dom_numberize d v = Err KeyErr).
 Proof. exact finite_bijection. Qed.
 Print Assumptions C20_bijection.
@@ -75,32 +75,34 @@ Theorem C20_bijection_refuted_old :
 Proof. exact bijection_refuted_oneshot_old. Qed.
 Print Assumptions C20_bijection_refuted_old.
 
-(** RangeDomain of size n: the identity bijection on the integers 0..n-1 (no range check in
-    numberize / denumberize); contains decides 0 <= z < n on integers; non-numbers raise TypeError *)
+(** RangeDomain of size n: the identity bijection on the ints 0..n-1 (no range check in
+    numberize / denumberize); contains decides 0 <= z < n on ints and is False for everything
+    that is not an int (a Python value = its equality class + the flag isinstance(_, int)) *)
 Theorem C20_bijection_range : forall n,
   let d := DRange (Some n) in
   dom_size d = Some n /\
   (forall v, dom_numberize d v = Ok v /\ dom_denumberize d v = Ok v) /\
-  (forall z, dom_contains d (vint z) = Ok true <-> (0 <= z < Z.of_nat n)%Z) /\
-  (forall i, i < n -> dom_contains d (vnat i) = Ok true) /\
-  (forall z, dom_contains d (vint z) = Ok true <-> exists i, i < n /\ dom_denumberize d (vnat i) = Ok (vint z)) /\
-  (forall c, dom_contains d (VOther c) = Err TypeErr).
+  (forall z, dom_contains d (vint z) true = Ok true <-> (0 <= z < Z.of_nat n)%Z) /\
+  (forall i, i < n -> dom_contains d (vnat i) true = Ok true) /\
+  (forall v, dom_contains d v false = Ok false) /\
+  (forall c b, dom_contains d (VOther c) b = Ok false).
 Proof. exact range_bijection. Qed.
 Print Assumptions C20_bijection_range.
 
-(** "contains agrees" over ALL values is false for a RangeDomain (RangeDomain(1).contains(0.5)) ... *)
-Theorem C20_range_contains_refuted :
-  ~ (forall n v, dom_contains (DRange (Some n)) v = Ok true <->
-                 exists i, i < n /\ dom_denumberize (DRange (Some n)) (vnat i) = Ok v).
-Proof. exact range_contains_refuted. Qed.
-Print Assumptions C20_range_contains_refuted.
+(** "contains agrees", full statement on the modelled universe of Python values: contains holds
+    iff the value is an int that some denumberize n, n < size, yields (repaired in /repo 973b650) *)
+Theorem C20_range_contains : forall n v b, int_flag_ok (v, b) = true ->
+  (dom_contains (DRange (Some n)) v b = Ok true <->
+   b = true /\ exists i, i < n /\ dom_denumberize (DRange (Some n)) (vnat i) = Ok v).
+Proof. exact range_contains_iff. Qed.
+Print Assumptions C20_range_contains.
 
-(** ... and true under the guard that the value is an integer or not a number *)
-Theorem C20_range_contains_integral : forall n v, integral_probe v = true ->
-  (dom_contains (DRange (Some n)) v = Ok true <->
-   exists i, i < n /\ dom_denumberize (DRange (Some n)) (vnat i) = Ok v).
-Proof. exact range_contains_integral. Qed.
-Print Assumptions C20_range_contains_integral.
+(** record of the repaired finding: contains without the isinstance test ([range_contains_old])
+    was true for RangeDomain(1).contains(0.5) *)
+Theorem C20_range_contains_refuted_old :
+  ~ (forall n v, range_contains_old (Some n) v = Ok true <-> exists i, i < n /\ v = vnat i).
+Proof. exact range_contains_refuted_old. Qed.
+Print Assumptions C20_range_contains_refuted_old.
 
 (** soundness of the oracles that judge the implementation's answers *)
 Theorem C20_bij_oracle_sound : forall items size tab den,
@@ -118,13 +120,10 @@ Print Assumptions C20_bij_oracle_sound.
 Theorem C20_range_oracle_sound : forall n size tab,
   range_oracle n size tab = true ->
   size = Some n /\
-  forall v c nu de, In (v, (c, nu, de)) tab ->
-    match v with
-    | VNum _ => (c = Ok true <-> exists i, i < n /\ v = vnat i) /\
-                ((exists i, i < n /\ v = vnat i) -> nu = Ok v /\ de = Ok v) /\
-                (c = Ok true \/ c = Ok false)
-    | VOther _ => c <> Ok true
-    end.
+  forall v b c nu de, In (v, b, (c, nu, de)) tab ->
+    (c = Ok true <-> b = true /\ exists i, i < n /\ v = vnat i) /\
+    (b = true -> (exists i, i < n /\ v = vnat i) -> nu = Ok v /\ de = Ok v) /\
+    (c = Ok true \/ c = Ok false).
 Proof. exact range_oracle_sound. Qed.
 Print Assumptions C20_range_oracle_sound.
 
@@ -359,19 +358,22 @@ Print Assumptions C20_new_finite_factor.
 (** * The oracles are not stricter than the property: the model's own answers pass them *)
 Require Import Fggs.Proofs.Domain_oracle.
 
-Theorem C20_bij_oracle_complete : forall k items probes, NoDup items -> (forall v, In v items -> In v probes) ->
+Theorem C20_bij_oracle_complete : forall k items tprobes, NoDup items -> (forall v, In v items -> In v (map fst tprobes)) ->
   let d := mk_finite k items in
+  let probes := map fst tprobes in
   bij_oracle items (length items)
-             (combine probes (combine (map (dom_contains d) probes) (map (dom_numberize d) probes)))
+             (combine probes (combine (map (fun p => dom_contains d (fst p) (snd p)) tprobes) (map (dom_numberize d) probes)))
              (map (fun i => dom_denumberize d (vnat i)) (seq 0 (length items))) = true.
 Proof. exact bij_oracle_model. Qed.
 Print Assumptions C20_bij_oracle_complete.
 
-Theorem C20_range_oracle_complete : forall n probes, forallb integral_probe probes = true ->
+Theorem C20_range_oracle_complete : forall n tprobes, forallb int_flag_ok tprobes = true ->
   let d := DRange (Some n) in
+  let probes := map fst tprobes in
   range_oracle n (dom_size d)
-               (combine probes (combine (combine (map (dom_contains d) probes) (map (dom_numberize d) probes))
-                                        (map (dom_denumberize d) probes))) = true.
+               (combine tprobes (combine (combine (map (fun p => dom_contains d (fst p) (snd p)) tprobes)
+                                                  (map (dom_numberize d) probes))
+                                         (map (dom_denumberize d) probes))) = true.
 Proof. exact range_oracle_model. Qed.
 Print Assumptions C20_range_oracle_complete.
 
